@@ -33,6 +33,14 @@ func (handler *BlockHandler) Handle(ctx context.Context, m wire.Message) ([]wire
 
 		logger.Verbose(ctx, "Received block : %s", hash)
 
+		// The header identifies the request this block fills, so make sure the body belongs to
+		// the header. Otherwise anyone (also an untrusted peer) could use up the request with a
+		// body that is refused later.
+		if !block.IsMerkleRootValid() {
+			logger.Warn(ctx, "Block body does not match merkle root : %s", hash)
+			return nil, nil
+		}
+
 		if handler.blockRefeeder != nil && handler.blockRefeeder.SetBlock(*hash, block) {
 			return nil, nil
 		}
@@ -49,6 +57,11 @@ func (handler *BlockHandler) Handle(ctx context.Context, m wire.Message) ([]wire
 		hash := block.Header.BlockHash()
 
 		logger.Verbose(ctx, "Received block : %s", hash)
+
+		if !block.IsMerkleRootValid() {
+			logger.Warn(ctx, "Block body does not match merkle root : %s", hash)
+			return nil, nil
+		}
 
 		if handler.blockRefeeder != nil && handler.blockRefeeder.SetBlock(*hash, block) {
 			return nil, nil
